@@ -598,7 +598,10 @@ func intLit(e ast.Expr) (int, bool) {
 }
 
 // lenMinus: e is len(X) or len(X)-k; returns X and k.
-func lenMinus(e ast.Expr) (ast.Expr, int, bool) {
+func lenMinus(e ast.Expr) (ast.Expr, int, bool) { return lenMinusIn(nil, e) }
+
+// lenMinusIn also reads `n-k` and `n` where n is a local of body defined once as len(X).
+func lenMinusIn(body ast.Node, e ast.Expr) (ast.Expr, int, bool) {
 	e = stripParens(e)
 	k := 0
 	if be, ok := e.(*ast.BinaryExpr); ok && be.Op == token.SUB {
@@ -608,6 +611,11 @@ func lenMinus(e ast.Expr) (ast.Expr, int, bool) {
 		}
 		k = n
 		e = stripParens(be.X)
+	}
+	if id, ok := e.(*ast.Ident); ok && body != nil {
+		if d := singleDefinition(body, id.Name); d != nil {
+			e = stripParens(d)
+		}
 	}
 	if ce, ok := e.(*ast.CallExpr); ok && len(ce.Args) == 1 && nospace(ce.Fun) == "len" {
 		return ce.Args[0], k, true
@@ -696,7 +704,7 @@ func (in *qinterp) eval(e ast.Expr, st *qstate) tset {
 		lo, lok := intLit(x.Low)
 		hi, hok := 0, x.High == nil
 		if x.High != nil {
-			if y, k, ok := lenMinus(x.High); ok {
+			if y, k, ok := lenMinusIn(in.fd.Body, x.High); ok {
 				// len(Y)-k with Y the sliced string, or a string of the same length
 				if nospace(y) == nospace(x.X) {
 					hi, hok = k, true
@@ -1260,7 +1268,7 @@ func hasConstantStringSlice(info *types.Info, fd *ast.FuncDecl) bool {
 		lo, lok := intLit(se.Low)
 		hok, hi := se.High == nil, 0
 		if se.High != nil {
-			if _, k, ok := lenMinus(se.High); ok {
+			if _, k, ok := lenMinusIn(fd.Body, se.High); ok {
 				hok, hi = true, k
 			}
 		}
@@ -1395,7 +1403,10 @@ func c13DelimiterSlices(c *Ctx, g *load.G) {
 		}
 	}
 	r.Analysed["C13-q constant-distance string slices"] = n
-	r.Min("C13-q constant-distance string slices", 4, n)
+	if n == 0 {
+		// a tree that strips delimiters without positional slices (TrimPrefix / CutSuffix / …) has nothing to discharge
+		r.Ok("C13-q", "G:no-constant-distance-string-slices", "", "", "no function of the generator slices a string by constant distances from its ends")
+	}
 }
 
 // c13qControl runs the interpreter on the control functions with the parameter shape {"["…"]", "["…"]i"}.
